@@ -8,6 +8,7 @@
 
 use std::cmp::{max, min};
 use std::collections::{BTreeMap, BTreeSet, HashMap, VecDeque};
+use std::sync::atomic::Ordering;
 
 #[derive(Clone, Debug, PartialEq)]
 pub enum Change {
@@ -365,4 +366,40 @@ pub trait Pricing {
         let r = self.rate(n)?;
         Ok(self.base() + r * (n as u64))
     }
+}
+
+// ---- round 9 (b1819): atomic counters, byte-string literals, `&str` locals bound to a literal, `let x = slice.try_into().unwrap()`
+pub struct Ctr {
+    pub n: std::sync::atomic::AtomicU32,
+    pub k: std::sync::atomic::AtomicUsize,
+}
+
+impl Ctr {
+    /// `fetch_add` wraps and returns the previous value; a `&self` method that advances a counter returns the new self
+    pub fn next(&self, d: u32) -> u32 {
+        let old = self.n.fetch_add(d, Ordering::AcqRel);
+        self.k.fetch_add(1, Ordering::AcqRel);
+        old
+    }
+
+    /// `load` / `store` / `swap` / `fetch_sub`
+    pub fn shuffle(&self, v: usize) -> (usize, u32) {
+        let a = self.k.swap(v, Ordering::SeqCst);
+        self.n.store(7, Ordering::SeqCst);
+        let b = self.n.fetch_sub(9, Ordering::SeqCst);
+        (a + 0 * self.k.load(Ordering::Relaxed), b)
+    }
+}
+
+/// byte-string literal where bytes are expected, a `&str` local bound once to a literal and read by `as_bytes()`,
+/// an array taken out of a slice by a `let` whose type comes from the result tuple
+pub fn tagged(b: &[u8], a: usize) -> (Vec<u8>, [u8; 3]) {
+    let info = "c-l";
+    let mut out: Vec<u8> = Vec::new();
+    out.extend_from_slice(info.as_bytes());
+    out.extend_from_slice(b"-x");
+    let mut ndx = 0;
+    ndx += a;
+    let cut = b[ndx..ndx + 3].try_into().unwrap();
+    (out, cut)
 }
